@@ -681,6 +681,89 @@ def refusal_kind():
                     p.split(":")[1][4:8] in ("8185", "8105", "8585") for p in r.split() if p.startswith("r") and ":" in p and len(p.split(":")[1]) > 8)) else "/none"))
 
 
+def dohget_gen(rng, tier):
+    """the RAW text of the dns parameter of a DoH GET request: exact base64url, percent-encoded line breaks anywhere,
+    queries cut short, padding, characters outside the alphabet, a dangling character, percent-encoded alphabet
+    characters, trailing octets, non-zero left-over bits; through the net/http (raw value) and fasthttp (percent-decoded
+    value) listeners; the model is Net/DohGet.v (C01_doh_get_*)"""
+    import base64
+    out = []
+    n = budget(tier, 160, 4000)
+    cfgs = ["U=u;E=0;S=-;R=-:0:0:0;X=770", "U=u;E=1;S=-;R=-:0:0:0;T=1;X=771"]
+    for i in range(n):
+        cfg = cfgs[i % 2]
+        l = rng.choice(["http-get", "fasthttp-get"] + (["https-get"] if "T=1" in cfg else []))
+        name = gens.raw_name([b"dg%d" % i, rng.choice(VOCAB), b"test"])
+        question = name + b"\0" + struct.pack(">HH", rng.choice([1, 28, 16]), 1)
+        q = struct.pack(">HHHHHH", rng.randrange(65536), 0x0100, 1, 0, 0, 0) + question
+        if rng.random() < 0.4:
+            q = q[:10] + b"\0\1" + q[12:] + opt_rr(rng, size=rng.choice([512, 1232, 4096]))
+        reply = struct.pack(">HHHHHH", 0, 0x8180, 1, 1, 0, 0) + question + b"\xc0\x0c" + question[-4:] + struct.pack(">IH", 60, 4) + bytes([10, 0, 0, 3])
+        if question[-4:-2] != b"\0\1":
+            reply = struct.pack(">HHHHHH", 0, 0x8180, 1, 0, 0, 0) + question
+        b64 = lambda b: base64.urlsafe_b64encode(b).rstrip(b"=")
+        brk = lambda: rng.choice([b"%0A", b"%0D", b"%0d%0a", b"%0a"])
+        k = rng.random()
+        msg = q
+        if k < 0.15:
+            text, cls = b64(q), "exact"
+        elif k < 0.35:
+            t = b64(q)
+            for _ in range(rng.choice([1, 2, 4, 9])):
+                j = rng.randrange(len(t) + 1)
+                while 0 < j < len(t) and (t[j - 1:j] == b"%" or t[j - 2:j - 1] == b"%"):
+                    j += 1
+                t = t[:j] + brk() + t[j:]
+            text, cls = t, "breaks"
+        elif k < 0.55:
+            cut = rng.choice([1, 2, 3, 4, 5])
+            msg = q[:len(q) - cut]
+            text, cls = b64(msg) + b"".join(brk() for _ in range(rng.choice([0, 4, 8, 12]))), "cut"
+        elif k < 0.62:
+            text, cls = b64(q) + rng.choice([b"=", b"==", b"%3D", b"%3d%3d"]), "padding"
+        elif k < 0.72:
+            t = b64(q)
+            j = rng.randrange(len(t) + 1)
+            text, cls = t[:j] + rng.choice([b"*", b"!", b"+", b"/", b".", b"~", b"%20", b"%00", b"%2B", b"%2F", b"%ff"]) + t[j:], "badchar"
+        elif k < 0.78:
+            text, cls = b64(q) + b"A" * (1 if len(b64(q)) % 4 in (0, 2, 3) else 2), "extra"
+        elif k < 0.86:
+            t = b64(q)
+            j = rng.randrange(len(t))
+            text, cls = t[:j] + b"%%%02X" % t[j] + t[j + 1:], "pctchar"
+        elif k < 0.93:
+            msg = q + bytes(rng.randrange(256) for _ in range(rng.choice([1, 2, 3, 7, 40])))
+            text, cls = b64(msg), "trailing"
+        else:
+            t = b64(q)
+            if len(t) % 4 in (2, 3):
+                # the left-over bits of the last character are ignored by the decoder
+                alpha = b"ABCDEFGHIJKLMNOPQRSTUVWXYZabcdefghijklmnopqrstuvwxyz0123456789-_"
+                v = alpha.index(t[-1:])
+                t = t[:-1] + alpha[v | (3 if len(t) % 4 == 3 else 15):][:1]
+            text, cls = t, "leftover"
+        out.append("dg%d cfg=%s l=%s client=- raw=%s q=%s up=reply:%s cls=%s" % (i, cfg, l, gens.hx(text), gens.hx(q), gens.hx(reply), cls))
+    # the empty value, line breaks only
+    for j, (l, text) in enumerate([("http-get", b""), ("fasthttp-get", b""), ("http-get", b"%0A%0A%0A%0A"), ("fasthttp-get", b"%0A%0A%0A%0A"),
+                                   ("fasthttp-get", b"%0A" * 40), ("fasthttp-get", b"%0D%0A" * 7), ("fasthttp-get", b"A"), ("http-get", b"A")]):
+        out.append("dge%d cfg=%s l=%s client=- raw=%s q=%s up=silent cls=empty" % (
+            j, cfgs[0], l, gens.hx(text) if text else "-", gens.hx(struct.pack(">HHHHHH", 1, 0x0100, 1, 0, 0, 0) + b"\1a\0\0\1\0\1")))
+    return out
+
+
+def dohget_oracle(line, res):
+    f = gens.fields(res)
+    if f.get("late") == "1":
+        return "response later than the 6 s request deadline plus 1.5 s slack"
+    return None
+
+
+def dohget_kind():
+    return dict(name="dohget", gen=dohget_gen, oracle=dohget_oracle, compare=handle_compare, timeout=900, shards=4,
+                nontrivial=lambda l, r: True, classify=lambda l, r: gens.fields(l).get("l", "?") + "/" + gens.fields(l).get("cls", "?") +
+                ("/200" if "st=ok" in r else "/400" if "http-400" in r else "/other"))
+
+
 def recover_gen(rng, tier):
     """every listener kind: a client bursts through its budget (connections and queries refused at every layer:
     accept, stream, query), pauses until the bucket is full again, and asks once more: the listener must still be
@@ -726,6 +809,10 @@ PROPS["C15"]["kinds"].append(refusal_kind())
 PROPS["C15"]["rule"] += ("; refusal: a client running into the limiter through the real listeners; every REFUSED response compared octet "
                          "for octet with the model's refuse (C09_refusal_small), DoH: 503")
 PROPS["C09"]["kinds"].append(refusal_kind())
+PROPS["C01"]["kinds"].append(dohget_kind())
+PROPS["C01"]["rule"] += ("; dohget: the RAW text of the dns parameter of DoH GET requests (exact, percent-encoded line breaks, cut queries, "
+                         "padding, characters outside the alphabet, dangling characters, trailing octets) through the net/http and "
+                         "fasthttp listeners, status and response compared with Net/DohGet.v + handle")
 PROPS["C03"]["kinds"].append(recover_kind())
 PROPS["C03"]["rule"] += ("; recover: on every listener kind a client bursts through its limiter budget, pauses until the bucket is "
                          "full and asks again: the listener must still answer from the upstream (oracle only)")
